@@ -279,10 +279,12 @@ Record cbout := {
   co_base : bytes;                      (* Location without the appended token fragment *)
   co_sep : N;                           (* byte between base and token=, 0 = none *)
   co_bearer : bool;                     (* the bearer token occurs in Location *)
-  co_auth : option bytes }.             (* value of the auth cookie that is set *)
+  co_auth : option bytes;               (* value of the auth cookie that is set *)
+  co_leak : bool }.                     (* a token of the IdP response occurs anywhere else in the response:
+                                           another header, another cookie, the body *)
 
 Definition cb_fail (st : N) (tr : list (bytes * bytes)) : cbout :=
-  {| co_status := st; co_trace := tr; co_base := []; co_sep := 0; co_bearer := false; co_auth := None |}.
+  {| co_status := st; co_trace := tr; co_base := []; co_sep := 0; co_bearer := false; co_auth := None; co_leak := false |}.
 
 Definition callback (enc_raw : bytes -> bytes) (dec_pad dec_raw : bytes -> option bytes) (mac : bytes -> bytes -> bytes)
   (parse : bytes -> option urlrec) (key : bytes) (now : Z) (i : cbin) : cbout :=
@@ -304,10 +306,10 @@ Definition callback (enc_raw : bytes -> bytes) (dec_pad dec_raw : bytes -> optio
       | ExOk tok =>
           if negb (is_nil r) then
             {| co_status := 302; co_trace := tr; co_base := r;
-               co_sep := if mem 35 r then 38 else 35; co_bearer := true; co_auth := None |}
+               co_sep := if mem 35 r then 38 else 35; co_bearer := true; co_auth := None; co_leak := false |}
           else
             {| co_status := 302; co_trace := tr; co_base := validate_original parse u (cb_prefix i);
-               co_sep := 0; co_bearer := false; co_auth := Some tok |}
+               co_sep := 0; co_bearer := false; co_auth := Some tok; co_leak := false |}
       end
     end
   end.
@@ -388,7 +390,8 @@ Definition pairb_eqb (a b : bytes * bytes) : bool := beqb (fst a) (fst b) && beq
 Definition cbout_eqb (a b : cbout) : bool :=
   (co_status a =? co_status b) && list_eqb pairb_eqb (co_trace a) (co_trace b)
   && beqb (co_base a) (co_base b) && (co_sep a =? co_sep b)
-  && Bool.eqb (co_bearer a) (co_bearer b) && opt_eqb beqb (co_auth a) (co_auth b).
+  && Bool.eqb (co_bearer a) (co_bearer b) && opt_eqb beqb (co_auth a) (co_auth b)
+  && Bool.eqb (co_leak a) (co_leak b).
 Definition obs_eqb (a b : obs) : bool :=
   match a, b with
   | ORes x, ORes y => res_eqb x y
@@ -504,9 +507,13 @@ Definition cb_spec (i : cbin) (c : ck) (pr : option urlrec) (o : cbout) : bool :
         | Accepted _ _ u r =>
             if co_bearer o then negb (is_nil r) && beqb (co_base o) r && is_nil_opt (co_auth o)
             else is_nil r && orig_spec u (cb_prefix i) pr (co_base o)
+                 (* ... and then the bearer, whatever its size, is in the auth cookie, whole *)
+                 && match co_auth o, cb_exch i with Some a, ExOk t => beqb a t | _, _ => false end
         | Refused => false
         end
-      else is_nil (co_base o) && negb (co_bearer o)).
+      else is_nil (co_base o) && negb (co_bearer o))
+  (* no token of the IdP response anywhere else in the response *)
+  && negb (co_leak o).
 
 
 Definition login_spec (allow : list bytes) (prefix path q rt_param : bytes)
